@@ -262,8 +262,12 @@ func (e *Exec) intrinsic(fn *ssa.Function, name string, args []Value) (Value, bo
 	case "strconv.ParseInt", "strconv.Atoi":
 		if name == "strconv.ParseInt" {
 			b, bs := args[1].(Int), args[2].(Int)
+			if b.IsC && bs.IsC && b.sval() == 0 && bs.sval() == 64 {
+				v, err := e.parseInt0(args[0].(Str))
+				return Tuple{v, err}, true
+			}
 			if !b.IsC || !bs.IsC || b.sval() != 10 || bs.sval() != 64 {
-				e.unsupported("ParseInt with base/bitSize other than 10/64")
+				e.unsupported("ParseInt with base/bitSize other than 10/64 or 0/64")
 			}
 		}
 		v, err := e.parseInt(args[0].(Str))
@@ -611,6 +615,53 @@ func (e *Exec) parseInt(s Str) (Value, Value) {
 		return iConv(p.I, 64, true), Iface{}
 	}
 	e.unsupported("ParseInt on %s", s)
+	return nil, nil
+}
+
+// parseInt0 models strconv.ParseInt(s,0,64) on the ID-string domain.  Canonical decimal texts parse as in
+// base 10; every other text (leading zeros, signs, prefixes, underscores, non-integers) gets a free
+// "base-0 integer" flag and value, so that texts such as "0x1f" — integers only under base 0 — are within
+// reach of the solver; synthToken renders those as 0x-literals, and any model is replayed natively before
+// it is reported.
+func (e *Exec) parseInt0(s Str) (Value, Value) {
+	if s.isLit() {
+		v, err := strconv.ParseInt(s.litVal(), 0, 64)
+		if err != nil {
+			return mkI64(v), e.newErr()
+		}
+		return mkI64(v), Iface{}
+	}
+	if len(s.P) != 1 {
+		e.unsupported("ParseInt base 0 on composite string %s", s)
+	}
+	p := s.P[0]
+	switch p.K {
+	case pDec:
+		return p.I, Iface{}
+	case pDigit:
+		return iConv(p.I, 64, true), Iface{}
+	case pTok:
+		t := p.Tok
+		if !e.tokB0[t] {
+			e.tokB0[t] = true
+			e.declare(fmt.Sprintf("tok%d_b0int", t), "Bool")
+			e.declare(fmt.Sprintf("tok%d_b0val", t), sortBV(64))
+			e.sol.Send(fmt.Sprintf("(assert (=> tok%d_canon (and tok%d_b0int (= tok%d_b0val tok%d_val))))", t, t, t, t))
+			e.sol.Send(fmt.Sprintf("(assert (=> (or tok%d_empty tok%d_ovf) (not tok%d_b0int)))", t, t, t))
+			for o := range e.tokB0 {
+				if o == t {
+					continue
+				}
+				e.sol.Send(fmt.Sprintf("(assert (=> (= tok%d_id tok%d_id) (and (= tok%d_b0int tok%d_b0int) (= tok%d_b0val tok%d_b0val))))", t, o, t, o, t, o))
+				e.sol.Send(fmt.Sprintf("(assert (=> (and tok%d_b0int tok%d_b0int (not tok%d_isint) (not tok%d_isint) (= tok%d_b0val tok%d_b0val)) (= tok%d_id tok%d_id)))", t, o, t, o, t, o, t, o))
+			}
+		}
+		ok := symBool(fmt.Sprintf("tok%d_b0int", t))
+		val := e.nmI(iIte(ok, symInt(64, true, fmt.Sprintf("tok%d_b0val", t)), mkI64(0)))
+		e.objCtr++
+		return val, Iface{T: symErrType, V: SymErr{id: e.objCtr}, MaybeNil: &ok}
+	}
+	e.unsupported("ParseInt base 0 on %s", s)
 	return nil, nil
 }
 
